@@ -8,7 +8,7 @@ CONSTANTS
   MaxOps = 0
   RetryExact = TRUE
   SyncTask = FALSE
-  Dev = {}
+  Dev = {"late-same-peer"}
 SPECIFICATION LiveSpec
 VIEW view
 INVARIANTS C16_OneLive C16_Capacity C16_Attribution
